@@ -349,7 +349,8 @@ fair process (Stable = StableId)
    k_recheck:
     if (closed = 1) { stableReaders := stableReaders - 1; kres := "closed"; goto k_end; };
   };
- k_use:
+ k_use:                                           \* gate: entry of metaDB.SetStable (sim MetaStore hook)
+  Hook(StableId, "sset");
   if (~metaOpen) { Panic(StableId, "metaDB used after Close"); kres := "panic"; } else { kres := "ok"; };
  k_runlock:
   if (FIXED) { stableReaders := stableReaders - 1; };
@@ -1400,6 +1401,10 @@ k_recheck == /\ pc[StableId] = "k_recheck"
                              idx, from, rres, cs >>
 
 k_use == /\ pc[StableId] = "k_use"
+         /\ IF Record
+               THEN /\ sched' = Append(sched, <<StableId, "sset">>)
+               ELSE /\ TRUE
+                    /\ sched' = sched
          /\ IF ~metaOpen
                THEN /\ panicked' = (panicked \cup {<<StableId, "metaDB used after Close">>})
                     /\ kres' = "panic"
@@ -1410,8 +1415,8 @@ k_use == /\ pc[StableId] = "k_use"
                          trigClosed, statePtr, nver, ver, ref, fin, finFiles, 
                          delFiles, ntail, tl, nfile, open, metaOpen, 
                          stableReaders, stableW, nc, hist, lastRes, closerDone, 
-                         writerDone, sched, pcx, s, myCh, newSegs, gone, nt, 
-                         wres, rs, done, rquit, n, rv, idx, from, rres, cs >>
+                         writerDone, pcx, s, myCh, newSegs, gone, nt, wres, rs, 
+                         done, rquit, n, rv, idx, from, rres, cs >>
 
 k_runlock == /\ pc[StableId] = "k_runlock"
              /\ IF FIXED
@@ -1673,7 +1678,7 @@ Reclaimed == AllDone => \A v \in DOMAIN fin : fin[v] # 1
 (* process whose pc is elsewhere is in the middle of a stretch and keeps running while it can. *)
 GateLabels == {"w_call", "w_checked", "w_parked", "w_sync", "w_trigger", "w_tcommit", "w_tfin", "w_hcommit", "w_hfin",
                "t_received", "t_exit", "t_commit", "t_fin", "t_doneh", "r_call", "r_checked", "r_loaded",
-               "k_call2", "k_gate", "c_call", "c_flagged", "c_fin"}
+               "k_call2", "k_gate", "k_use", "c_call", "c_flagged", "c_fin"}
 StepOf(p) == IF p = WriterId THEN Writer ELSE IF p = RotId THEN Rot ELSE IF p = StableId THEN Stable
              ELSE IF p = CloserId THEN Closer ELSE Reader(p)
 Mid == {p \in ProcSet : pc[p] \notin GateLabels /\ pc[p] # "Done" /\ ENABLED StepOf(p)}
